@@ -537,4 +537,112 @@ example : (GetNextMineWindow (nextHeight := 5) (distance := 2) (parentTime := 20
 example : correctMiner 3 false (some 1) 20000000 4 20000045000 10000 = .ok 0 := by decide
 example : minerDistance 3 false (some 1) (some 0) = .ok 2 := by decide
 
+
+/-! ### Which heights restart the rotation, and which deputy list governs a height
+
+The theorems above take `special` ("the rotation restarts at rank 0 here") and the deputy count as parameters.
+In the code `special = (height == 1 || IsRewardBlock(height))` and the list comes from the term
+`GetSignerTermIndexByHeight(height)`. The statements below are about the functions REGENERATED from
+`chain/deputynode/term_record.go` on every run: their closed forms, and the fact the property's wording relies on —
+the reward heights are exactly the heights whose signer term differs from their parent's, i.e. "the first block of
+a term". A change of either Go function breaks these proofs instead of being followed silently. -/
+
+theorem usub_small' {a b : Nat} (hb : b ≤ a) (ha : a < 4294967296) : GoSem.usub 4294967296 a b = a - b := by
+  unfold GoSem.usub
+  have hb' : b % 4294967296 = b := Nat.mod_eq_of_lt (by omega)
+  rw [hb']
+  have : a + 4294967296 - b = (a - b) + 4294967296 := by omega
+  rw [this, Nat.add_mod_right]
+  exact Nat.mod_eq_of_lt (by omega)
+
+/-- closed form of the signer term of a height -/
+theorem signerTerm_closed (h T I : Nat) (hh : h < 4294967296) (hTI : T + I + 1 < 4294967296) :
+    GetSignerTermIndexByHeight h T I = if h < T + I + 1 then 0 else (h - I - 1) / T := by
+  unfold GetSignerTermIndexByHeight
+  rw [GoSem.uadd_small (by omega : T + I < 4294967296), GoSem.uadd_small (by omega : T + I + 1 < 4294967296)]
+  by_cases hlt : h < T + I + 1
+  · simp [hlt]
+  · simp only [hlt, decide_false, if_false, Bool.false_eq_true]
+    rw [usub_small' (by omega) hh, usub_small' (by omega) (by omega)]
+
+/-- closed form of `IsRewardBlock` -/
+theorem reward_closed (h T I : Nat) (hTI : T + I + 1 < 4294967296) :
+    IsRewardBlock h T I = (decide (T + I + 1 ≤ h) && (h % T == I + 1)) := by
+  unfold IsRewardBlock
+  rw [GoSem.uadd_small (by omega : T + I < 4294967296), GoSem.uadd_small (by omega : T + I + 1 < 4294967296),
+    GoSem.uadd_small (by omega : I + 1 < 4294967296)]
+  by_cases hlt : h < T + I + 1
+  · simp [hlt] <;> omega
+  · have : T + I + 1 ≤ h := by omega
+    by_cases hm : h % T = I + 1 <;> simp [hlt, this, hm]
+
+theorem div_pred (x T : Nat) (hT : 0 < T) (hx : 0 < x) :
+    (x - 1) / T = if x % T = 0 then x / T - 1 else x / T := by
+  have hq : x / T * T + x % T = x := Nat.div_add_mod' x T
+  have hr := Nat.mod_lt x hT
+  by_cases hz : x % T = 0
+  · simp only [hz, if_true]
+    have hq1 : 1 ≤ x / T := by
+      rcases Nat.eq_zero_or_pos (x / T) with h0 | h0
+      · rw [h0] at hq; omega
+      · exact h0
+    apply Nat.div_eq_of_lt_le
+    · have : (x / T - 1) * T = x / T * T - T := by rw [Nat.sub_mul, Nat.one_mul]
+      rw [this]; omega
+    · have : (x / T - 1 + 1) * T = x / T * T := by rw [Nat.sub_add_cancel hq1]
+      rw [this]; omega
+  · simp only [hz, if_false]
+    apply Nat.div_eq_of_lt_le
+    · omega
+    · rw [Nat.add_mul, Nat.one_mul]; omega
+
+theorem mod_shift (h T I : Nat) (hI : I + 1 < T) (hge : I + 1 ≤ h) :
+    (h % T = I + 1) ↔ ((h - I - 1) % T = 0) := by
+  have hT : 0 < T := by omega
+  have e : h = (h - I - 1) + (I + 1) := by omega
+  have hq : (h - I - 1) / T * T + (h - I - 1) % T = h - I - 1 := Nat.div_add_mod' _ T
+  have hr := Nat.mod_lt (h - I - 1) hT
+  constructor
+  · intro hm
+    rw [e, Nat.add_mod, Nat.mod_eq_of_lt hI] at hm
+    by_cases hsum : (h - I - 1) % T + (I + 1) < T
+    · rw [Nat.mod_eq_of_lt hsum] at hm; omega
+    · rw [Nat.mod_eq_sub_mod (by omega), Nat.mod_eq_of_lt (by omega)] at hm; omega
+  · intro hz
+    rw [e, Nat.add_mod, hz, Nat.zero_add, Nat.mod_mod, Nat.mod_eq_of_lt hI]
+
+/-- **the reward heights are exactly the first heights of the signer terms after term 0**: the height at which
+    `GetDeputyByDistance` restarts the rotation at rank 0 (`IsRewardBlock`) is the height whose deputy list
+    (`GetSignerTermIndexByHeight`) differs from its parent's — for every term length, interim length shorter than
+    a term, and height of the uint32 range. -/
+theorem reward_iff_term_starts (h T I : Nat) (h1 : 1 ≤ h) (hh : h < 4294967296) (hT : 0 < T) (hI : I + 1 < T)
+    (hTI : T + I + 1 < 4294967296) :
+    IsRewardBlock h T I = true ↔ GetSignerTermIndexByHeight h T I ≠ GetSignerTermIndexByHeight (h - 1) T I := by
+  rw [reward_closed h T I hTI, signerTerm_closed h T I hh hTI, signerTerm_closed (h - 1) T I (by omega) hTI]
+  by_cases hlt : h < T + I + 1
+  · have h2 : h - 1 < T + I + 1 := by omega
+    simp [hlt, h2] <;> omega
+  · have hge : T + I + 1 ≤ h := by omega
+    simp only [hlt, if_false, hge, decide_true, Bool.true_and, beq_iff_eq]
+    rw [mod_shift h T I hI (by omega)]
+    have hxpos : 0 < h - I - 1 := by omega
+    have hq1 : 1 ≤ (h - I - 1) / T := Nat.div_pos (by omega) hT
+    by_cases hprev : h - 1 < T + I + 1
+    · have heq : h = T + I + 1 := by omega
+      subst heq
+      simp only [hprev, if_true]
+      have e1 : T + I + 1 - I - 1 = T := by omega
+      rw [e1, Nat.div_self hT, Nat.mod_self]; simp
+    · simp only [hprev, if_false]
+      have e3 : h - 1 - I - 1 = (h - I - 1) - 1 := by omega
+      rw [e3, div_pred (h - I - 1) T hT hxpos]
+      by_cases hz : (h - I - 1) % T = 0
+      · simp only [hz, if_true, true_iff]; omega
+      · simp [hz]
+
+/-- the hypotheses hold for the shipped parameters, and the first reward height is the first height of term 1 -/
+example : (1000 : Nat) + 1 < 1000000 ∧ IsRewardBlock 1001001 1000000 1000 = true ∧
+    GetSignerTermIndexByHeight 1001001 1000000 1000 = 1 ∧ GetSignerTermIndexByHeight 1001000 1000000 1000 = 0 := by
+  decide
+
 end LemoProofs.C13
